@@ -46,10 +46,8 @@ Proof. intros v. apply from_utf8_lossy_valid. exact actual_table_ok. Qed.
 
 Theorem C14_lossy_identity : forall v, Valid v -> from_utf8_lossy actual_width v = v.
 Proof. intros v. apply from_utf8_lossy_id. exact actual_table_ok. Qed.
-(* Not theorems: equality of the repaired text with std's for ill-formed input
-   (decided exhaustively up to length 2 through the model and length 3 against
-   std, then by structure), from_utf16_in, and the operations that do not take
-   byte indices (differential against std::string::String only). *)
+(* Not theorems: from_utf16_in and the operations that do not take byte indices
+   (differential against std::string::String only). *)
 
 Example C14_witness :
   from_utf8_lossy actual_width [97; 240; 159; 152; 98] = [97; 239; 191; 189; 98] /\
@@ -68,3 +66,14 @@ Print Assumptions C14_from_utf8.
 Print Assumptions C14_lossy_chunk.
 Print Assumptions C14_lossy_valid.
 Print Assumptions C14_lossy_identity.
+
+(* ---- the repair is the one the Unicode standard and std prescribe (Utf8Lossy.v) ---- *)
+From BV Require Import Utf8Lossy.
+
+(* for every byte string: well-formed characters are copied, every maximal subpart of an
+   ill-formed sequence becomes exactly one U+FFFD.  utf8_lossy_spec is defined without
+   reference to the implementation; the checker also compares it with std's output. *)
+Theorem C14_lossy_is_maximal_subpart_repair :
+  forall v, from_utf8_lossy actual_width v = utf8_lossy_spec v.
+Proof. intros v. apply from_utf8_lossy_is_spec. exact actual_table_ok. Qed.
+Print Assumptions C14_lossy_is_maximal_subpart_repair.
